@@ -19,5 +19,7 @@ CONSTANTS
   NamesR = {"other", "pki", "PKIdot"}
   LitsR = TRUE
   CarrierKinds = {"name", "allow", "lit"}
+  HistBound = 0
+  PoolClasses = {}
   Emit = TRUE
 INVARIANTS Safe RedirectsChecked EmitCase
